@@ -328,9 +328,9 @@ func (x *c1runner) confirm(p c1prog, cls string, pref c1arr) (ok bool, why strin
 		return v.ok, v.why, v.min, v.f
 	}
 	x.mu.Unlock()
-	budget := 8 * time.Second
+	budget := 6 * time.Second
 	if p.stream == "corpus" {
-		budget = 20 * time.Second
+		budget = 15 * time.Second
 	}
 	// the minimiser evaluates programs of its own making: name them for the crash record
 	x.mark(p, []string{"// while minimising\n" + p.src})
@@ -376,7 +376,8 @@ func c1corpusClass(name, diff string) string {
 		ks = append(ks, k)
 	}
 	sort.Strings(ks)
-	return "corpus:" + name + ":" + strings.Join(ks, "+")
+	_ = ks
+	return "corpus:" + name
 }
 
 type c1verdict struct {
@@ -684,6 +685,10 @@ func c1classify(p c1prog, base, res c1res, diffs []c1diff, texts ...string) (str
 			found["closedness-of-embedded-reference-depends-on-arrangement"] = true
 		case d.kind == "value" && embRef && (strings.HasPrefix(sa, "|(") || strings.HasPrefix(sb, "|(")):
 			// a disjunct that closedness should eliminate survives in one arrangement
+			found["closedness-of-embedded-reference-depends-on-arrangement"] = true
+		case d.kind == "value" && embRef && strings.Contains(sa, "·") != strings.Contains(sb, "·"):
+			// one side is a disjunction reduced to a single disjunct (rendered as a whole),
+			// the other a plain struct: different disjuncts survive the closedness check
 			found["closedness-of-embedded-reference-depends-on-arrangement"] = true
 		case d.kind == "value" && embRef && strings.Count(sa, "_|_(") != strings.Count(sb, "_|_("):
 			// the error-vs-value difference sits inside a disjunct / untracked part of the node
@@ -1163,8 +1168,8 @@ func c1Slots(c *Cfg, repo string, r *Rng) []c1slot {
 	for _, p := range c1Corpus(repo) {
 		slots = append(slots, c1slot{prog: p})
 	}
-	nGen := c.Pick(1600, 8000)
-	nMarks := c.Pick(300, 1000)
+	nGen := c.Pick(1300, 8000)
+	nMarks := c.Pick(200, 1000)
 	if c.Focus {
 		nGen, nMarks = c.Pick(5000, 16000), 0
 	}
@@ -1173,7 +1178,7 @@ func c1Slots(c *Cfg, repo string, r *Rng) []c1slot {
 		slots = append(slots, c1slot{prog: c1prog{name: fmt.Sprintf("gen#%d", i), stream: "gen"}, gen: gr.Sub(), depth: 2 + i%2})
 	}
 	rr := r.Sub()
-	for i := 0; i < c.Pick(350, 3000); i++ {
+	for i := 0; i < c.Pick(300, 3000); i++ {
 		slots = append(slots, c1slot{prog: c1prog{name: fmt.Sprintf("refs#%d", i), stream: "refs"}, gen: rr.Sub(), refs: true})
 	}
 	mr := r.Sub()
